@@ -533,7 +533,7 @@ class Ctx:
 
     # -- verdict -------------------------------------------------------------------------------
     def write_replay(self, payload):
-        d = os.path.join(VERIF, "replays")
+        d = os.environ.get("VERIF_DEV_REPLAY_DIR") or os.path.join(VERIF, "replays")   # (development aid: parallel runs of one property)
         os.makedirs(d, exist_ok=True)
         blob = json.dumps(payload, indent=1, default=str)
         h = hashlib.sha1(blob.encode()).hexdigest()[:10]
@@ -545,7 +545,7 @@ class Ctx:
     def finish(self, rule, level="proof", explanation=None):
         wall = time.time() - self.t0
         # replay files of earlier runs of this property are stale: remove them
-        rd = os.path.join(VERIF, "replays")
+        rd = os.environ.get("VERIF_DEV_REPLAY_DIR") or os.path.join(VERIF, "replays")
         if os.path.isdir(rd):
             for f in os.listdir(rd):
                 if f.startswith(self.prop + "-") and f.endswith(".json"):
